@@ -631,8 +631,14 @@ func (sc *specCtx) call(e *ast.CallExpr) Value {
 		}
 		if name == "forall" && len(trig) > 0 {
 			var pats []*Term
+			body, defs := abstractGround(body)
 			for _, te := range trig {
-				pats = append(pats, c.eval(te).C[0])
+				p, d := abstractGround(c.eval(te).C[0])
+				pats = append(pats, p)
+				defs = append(defs, d...)
+			}
+			for _, d := range defs {
+				sc.x.assumeTrue(d)
 			}
 			return mBool(ForallAlt([]*Term{bv}, body, pats))
 		}
@@ -720,6 +726,9 @@ func (sc *specCtx) call(e *ast.CallExpr) Value {
 		// errors.Is: a nil error matches only a nil target
 		e0, t0 := sc.eval(arg(0)).C[0], sc.eval(arg(1)).C[0]
 		return mBool(Ite(Eq(e0, Num(0)), Eq(t0, Num(0)), App("Is", SBool, e0, t0)))
+	case "is_":
+		// the raw relation (for a first argument known to be non-nil, and for triggers)
+		return mBool(App("Is", SBool, sc.eval(arg(0)).C[0], sc.eval(arg(1)).C[0]))
 	case "bytes_eq":
 		// bytes_eq(a, b): same length and content (slices or strings)
 		a, b := sc.eval(arg(0)), sc.eval(arg(1))
@@ -856,6 +865,17 @@ func (sc *specCtx) call(e *ast.CallExpr) Value {
 		v := sc.eval(arg(0))
 		t := sc.typeExpr(arg(1))
 		return mBool(And(Ne(v.C[0], Num(0)), App("AsT", SBool, v.C[0], Num(typeID(t)))))
+	case "impl":
+		// impl(v, "interface{M() T}"): the dynamic type of v has the methods of the interface type named
+		// (the predicate a type assertion to that interface tests)
+		v := sc.eval(arg(0))
+		lit, ok := arg(1).(*ast.BasicLit)
+		if !ok || lit.Kind != token.STRING {
+			sc.errf(arg(1), "impl: interface type as a string literal")
+			return mBool(TFalse)
+		}
+		name, _ := strconv.Unquote(lit.Value)
+		return mBool(And(Ne(v.C[0], Num(0)), App("implements."+ifaceName(name), SBool, App("dyntype", SInt, v.C[0]))))
 	case "hastype":
 		v := sc.eval(arg(0))
 		t := sc.typeExpr(arg(1))
